@@ -1,4 +1,4 @@
 SPECIFICATION TSpec
-INVARIANTS C10_StartOrderRespectsSendOrder C10_AtMostOnce C10_OnOwnThread C10_NothingAfterStop C10_SpawnFalseWhenGone C10_JoinAfterLoopEnd C10_BlockOnOutput
+INVARIANTS C10_StartOrderRespectsSendOrder C10_AtMostOnce C10_OnOwnThread C10_NothingAfterStop C10_SpawnFalseWhenGone C10_JoinAfterLoopEnd C10_BlockOnOutput C10_AcceptedStarts
 POSTCONDITION TraceAccepted
 CHECK_DEADLOCK FALSE
